@@ -717,6 +717,60 @@ def reg_nonempty(path):
     return stat.S_ISREG(st.st_mode) and st.st_size > 0
 
 
+def trusted_spelling_phase(ctx, exe, top):
+    """the socket directory is group-writable (no sticky bit) for group G.  munged may start only when G is the trusted group,
+    i.e. when --trusted-group NAMES G: a decimal string that is not a GID at all (beyond 2^32-1, negative) names no group, in
+    particular not the group its low 32 bits spell"""
+    fails, n = [], 0
+    for G, spell, ok in ((TGID, "%d" % TGID, True), (TGID, "%d" % (TGID + 1), False), (TGID, "%d" % (2 ** 32 + TGID), False),
+                         (TGID, "%d" % (2 ** 33 + TGID), False), (0, "%d" % 2 ** 32, False), (0, "%d" % 2 ** 63, False),
+                         (TGID, "%d" % (TGID - 2 ** 32), False), (5, "8589934597", False), (TGID, "0x%x" % TGID, False)):
+        R = os.path.join(top, "ts%02d" % n)
+        n += 1
+        os.mkdir(R, 0o755)
+        os.chmod(R, 0o755)
+        sd = os.path.join(R, "sd")
+        od = os.path.join(R, "od")
+        for d_, g_, m_ in ((sd, G, 0o775), (od, 0, 0o755)):
+            os.mkdir(d_)
+            os.chown(d_, 0, g_)
+            os.chmod(d_, m_)
+        key = os.path.join(od, "key")
+        with open(key, "wb") as f:
+            f.write(os.urandom(32))
+        os.chmod(key, 0o600)
+        pid = os.path.join(od, "pid")
+        errf = os.path.join(R, "stderr")
+        argv = [exe, "-F", "-S", os.path.join(sd, "sock"), "--key-file=" + key, "--pid-file=" + pid, "--seed-file=" + os.path.join(od, "seed"),
+                "--log-file=" + os.path.join(od, "log"), "--group-update-time=-1", "--num-threads=1", "--trusted-group=" + spell]
+        with open(errf, "wb") as ef:
+            p = subprocess.Popen(argv, stdin=subprocess.DEVNULL, stdout=ef, stderr=ef, cwd="/")
+        started = False
+        t0 = time.time()
+        while time.time() - t0 < 10:
+            if p.poll() is not None:
+                break
+            if reg_nonempty(pid):
+                started = True
+                break
+            time.sleep(0.01)
+        if p.poll() is None:
+            p.send_signal(signal.SIGTERM)
+            try:
+                p.wait(timeout=5)
+            except subprocess.TimeoutExpired:
+                p.kill()
+                p.wait()
+        text = open(errf, "rb").read().decode(errors="replace")[-400:]
+        ctx.count(("trusted-spelling", G, spell))
+        if started and not ok:
+            fails.append(("munged starts without --force although the socket directory is group-writable (0775, no sticky bit) for gid %d and "
+                          "--trusted-group=%s does not name that group (it is not a GID at all, or another one)" % (G, spell), argv, text))
+        elif ok and not started:
+            fails.append(("munged refuses to start although the socket directory's group %d is the --trusted-group" % G, argv, text))
+    return n, fails
+
+
 def run_daemon_case(exe, top, idx, case):
     """builds the tree, runs munged, stops it; returns dict(model_line, impl, obs)"""
     R = os.path.join(top, "r%05d" % idx)
@@ -1228,6 +1282,12 @@ def run(ctx):
             ctx.notes.append("candidate finding replayed on the real daemon (%d runs): a FIFO at the seed path blocks "
                              "the start for ever in open(O_RDONLY), SIGTERM is swallowed by the EINTR retry loop "
                              "(C16_seed_fifo_outcome; proposed repair seeded/fixes/c16-seed-fifo-nonblock.diff)" % len(hung))
+    # ---------------- (c) how the trusted group is NAMED: only a valid GID (or group name) names a group
+    if dcases and replay_case is None and not direct_fail:
+        tw = trusted_spelling_phase(ctx, munged, os.path.join(ctx.tmp, "runs"))
+        dist["trusted-spelling"] = tw[0]
+        for why, argv, text in tw[1]:
+            direct_fail.append(({"case": {"fam": "trusted-spelling"}, "argv": argv, "model_line": "-", "obs": {"text": text}}, "started", why))
     ctx.cov["input_distribution"] = dist
 
     # ---------------- verdict
